@@ -491,6 +491,9 @@ func (s *scope) nt(e ast.Expr) string {
 			ell = "..."
 		}
 		t := s.nt(v.Fun) + "(" + strings.Join(args, ", ") + ell + ")"
+		if t == "sdk.UnwrapSDKContext(ctx)" { // a context derived from the context is the context
+			return "ctx"
+		}
 		if sel, ok := v.Fun.(*ast.SelectorExpr); ok && lookupRE.MatchString(sel.Sel.Name) {
 			seen := false
 			for _, l := range *s.lookups {
@@ -828,8 +831,45 @@ func ifScope(s *scope, ifs *ast.IfStmt) (*scope, bool) {
 	return c, c.bind(ifs.Init)
 }
 
+// matchWrapperGuard: `if err := k.<helper>(…); err != nil { return nil, <error> }` where <helper> is a
+// function of the same directory that only checks (paths.go wrapperPred) and what it checks is one
+// Can* helper on request fields / ValidateAuthority on a request field.
+func matchWrapperGuard(s *scope, ifs *ast.IfStmt) (p *Pred, ok bool) {
+	if ifs.Else != nil || !isErrReturn(ifs.Body, 2, s.recv) {
+		return nil, false
+	}
+	c := s.errCheck(ifs.Cond)
+	if c == nil {
+		return nil, false
+	}
+	wp := s.wrapperPred(c)
+	if wp == nil {
+		return nil, false
+	}
+	return wp, true
+}
+
+func msgField(t string) (string, bool) {
+	if strings.HasPrefix(t, "msg.") && !strings.ContainsAny(t[4:], ".( ") {
+		return t[4:], true
+	}
+	return "", false
+}
+
+// writeCalls: the calls on the receiver in the statement that are not read-only by name.
+func writeCalls(st ast.Stmt, recv string) []string {
+	var out []string
+	for _, c := range recvCalls(st, recv) {
+		if !isReadName(c) {
+			out = append(out, c)
+		}
+	}
+	return out
+}
+
 func exchangeEndpoints() ([]Endpoint, error) {
 	path := filepath.Join(repoRoot, "x/exchange/keeper/msg_server.go")
+	currentDir = filepath.Dir(path)
 	f, err := parseFile(path)
 	if err != nil {
 		return nil, err
@@ -853,6 +893,25 @@ func exchangeEndpoints() ([]Endpoint, error) {
 				continue
 			}
 			ifs, isIf := st.(*ast.IfStmt)
+			if isIf { // a guard extracted into a helper of this package that only checks
+				c := s.child()
+				if ifs.Init == nil || c.bind(ifs.Init) {
+					if wp, okw := matchWrapperGuard(c, ifs); okw {
+						if mf, ok1 := msgField(wp.B); wp.K == "can" && ok1 {
+							if cf, ok2 := msgField(wp.C); ok2 {
+								ep.Guard, ep.Helper, ep.MarketField, ep.CallerField, ep.Index = "Can", wp.A, mf, cf, i
+								found = true
+								break
+							}
+						}
+						if af, ok1 := msgField(wp.A); wp.K == "auth" && ok1 && wp.B == "ValidateAuthority" {
+							ep.Guard, ep.AuthorityField, ep.Index = "Authority", af, i
+							found = true
+							break
+						}
+					}
+				}
+			}
 			if !usesIdent(st, s.recv) && !(isIf && pending != "") {
 				s.bind(st) // context unwrapping, address parsing, error returns: no use of the keeper
 				continue
@@ -871,6 +930,12 @@ func exchangeEndpoints() ([]Endpoint, error) {
 					}
 				}
 			}
+			// an independent read-only validation (writes nothing; falls through or returns an error)
+			// may come before the guard: the dominance obligation over the paths covers the order
+			if readOnlyCheck(s.child(), st, true) {
+				s.bind(st)
+				continue
+			}
 			if t := strings.Join(s.child().ntStmt(st), "; "); predicateTextRE.MatchString(t) {
 				ep.Guard, ep.Index, ep.Text = "Unrecognised", i, t
 				found = true
@@ -880,7 +945,7 @@ func exchangeEndpoints() ([]Endpoint, error) {
 				ep.FirstCallText = firstRecvCallText(s.child(), st)
 			}
 			s.bind(st)
-			ep.Precalls = append(ep.Precalls, recvCalls(st, s.recv)...)
+			ep.Precalls = append(ep.Precalls, writeCalls(st, s.recv)...)
 		}
 		if !found && pending != "" {
 			ep.Guard, ep.Text = "Unrecognised", "permission/authority predicate evaluated but not used as a guard: "+pending
@@ -1531,16 +1596,21 @@ func govEndpoints() ([]GovRow, []FuncShape, error) {
 // ---------------------------------------------------------------- main
 
 type Output struct {
-	Repo               string         `json:"repo"`
-	ExchangeEndpoints  []Endpoint     `json:"exchange_endpoints"`
-	CanHelpers         []CanHelper    `json:"can_helpers"`
-	HasPermission      FuncShape      `json:"has_permission"`
-	StoreHasPermission FuncShape      `json:"store_has_permission"`
-	CancelOrder        CancelGuard    `json:"cancel_order"`
-	PaymentFuncs       []PaymentFunc  `json:"payment_funcs"`
-	CustomSigners      []CustomSigner `json:"custom_signers"`
-	GovEndpoints       []GovRow       `json:"gov_endpoints"`
-	AuthorityFuncs     []FuncShape    `json:"authority_funcs"`
+	Repo               string             `json:"repo"`
+	ExchangeEndpoints  []Endpoint         `json:"exchange_endpoints"`
+	CanHelpers         []CanHelper        `json:"can_helpers"`
+	HasPermission      FuncShape          `json:"has_permission"`
+	StoreHasPermission FuncShape          `json:"store_has_permission"`
+	CancelOrder        CancelGuard        `json:"cancel_order"`
+	PaymentFuncs       []PaymentFunc      `json:"payment_funcs"`
+	CustomSigners      []CustomSigner     `json:"custom_signers"`
+	GovEndpoints       []GovRow           `json:"gov_endpoints"`
+	AuthorityFuncs     []FuncShape        `json:"authority_funcs"`
+	ExchangePaths      []HandlerPaths     `json:"exchange_paths"`
+	MsgPaths           []HandlerPaths     `json:"msg_paths"`
+	QueryHandlers      []QueryHandler     `json:"query_handlers"`
+	AuthoritySources   []AuthoritySource  `json:"authority_sources"`
+	AuthorityMentions  []AuthorityMention `json:"authority_mentions"`
 }
 
 func main() {
@@ -1572,6 +1642,10 @@ func main() {
 	out.CustomSigners, err = customSigners()
 	fail(err)
 	out.GovEndpoints, out.AuthorityFuncs, err = govEndpoints()
+	fail(err)
+	out.ExchangePaths, err = exchangePaths()
+	fail(err)
+	out.MsgPaths, out.QueryHandlers, out.AuthoritySources, out.AuthorityMentions, err = handlerTables()
 	fail(err)
 	enc := json.NewEncoder(os.Stdout)
 	enc.SetIndent("", " ")
